@@ -75,7 +75,7 @@ BOX_KIND = {"o2.5": "ortho", "o3": "ortho", "o345": "ortho", "o2": "ortho_dyadic
             "o248": "ortho_dyadic", "t1": "tric", "t2": "tric"}
 
 # cap for rows x (2c+1)^3 x max_cell_length of one call (biotite allocates that worst-case buffer per call)
-MAX_SLOTS = {"full": 2_500_000, "mid": 1_000_000, "lite": 300_000, "mini": 300_000, "tiny": 300_000}
+MAX_SLOTS = {"full": 2_500_000, "mid": 1_000_000, "lite": 300_000, "mini": 300_000, "tiny": 300_000, "micro": 300_000}
 
 L125 = geom.lattice(LATT)
 L27 = geom.lattice(SUB27)
@@ -491,7 +491,7 @@ def run_op(ctx, cfg, cl, orc, op, count=True):
             got = res if as_mask else rows_to_mask(res, n)
             ctx.count("cells_strict_superset_rows", int((got & ~within).any(axis=1).sum()))
         if bad is None:
-            ctx.outcome((m, op["q"], str(op["r"]), as_mask, single, within.tobytes()))
+            ctx.outcome(within.tobytes() + repr((m, op["q"], op["r"], as_mask, single)).encode())
     if bad is not None:
         mode, r, detail = bad
         report(ctx, cfg, op, orc, mode, q, rows, r,
@@ -585,42 +585,55 @@ def max_cell_len(coords, box):
     return len(coords) * (27 if box is not None else 1)
 
 
+_PROGRAMS = {}
+
+
 def program(cfg, coords, box, level):
+    """cached: the program only depends on cell size, worst-case cell length and level"""
+    key = (cfg["cs"], max_cell_len(coords, box), level)
+    if key not in _PROGRAMS:
+        ops = _program(cfg, coords, box, level)
+        _PROGRAMS[key] = [(op, json.dumps(op, separators=(",", ":"))) for op in ops]
+    return _PROGRAMS[key]
+
+
+def _program(cfg, coords, box, level):
     """The list of operations for one cell list.
     level 'full' (structured sets, 4920 queries), 'mid' (736 queries), 'lite' (736 queries, fewer result-form
-    repeats), 'mini' (132 queries), 'tiny' (132 queries, fewest repeats).  Every level issues every method, every
+    repeats), 'mini' (132 queries), 'tiny' / 'micro' (132 queries, fewest repeats; micro = k=3 over the full lattice).  Every level issues every method, every
     radius (scalar), per-query radii, index and mask forms, batched and single queries."""
     cs = cfg["cs"]
     ml = max_cell_len(coords, box)
-    qn = {"lite": "lite", "mid": "lite", "full": "full", "mini": "mini", "tiny": "mini"}[level]
+    qn = {"lite": "lite", "mid": "lite", "full": "full", "mini": "mini", "tiny": "mini", "micro": "mini"}[level]
     rich = level in ("mid", "full")
+    micro = level == "micro"
     ops = []
     for i, r in enumerate(RADII):
         k = capped(cs, r, ml, qn, False, level)
         ops.append({"m": "get", "q": qn, "rows": k, "r": r})
-        if rich or (level in ("lite", "mini") and r in (0.0, 1.5, 5.0)) or (level == "tiny" and r == 1.5):
+        if rich or (level in ("lite", "mini") and r in (0.0, 1.5, 5.0)) or (level in ("tiny", "micro") and r == 1.5):
             ops.append({"m": "get", "q": qn, "rows": k, "r": r, "mask": True})
-        if level != "tiny" or r in (0.0, 1.0, 2.5):
+        if level not in ("tiny", "micro") or r in ((0.0, 1.0, 2.5) if level == "tiny" else (1.0, 2.5)):
             ops.append({"m": "adj", "r": r})
     # per-query radii: every query paired with the radii of a cycling triple
     cyc = (([0.0, 1.0, 2.5], 0), ([0.5, 1.5, 2.0], 1), ([5.0, 0.0, 0.5], 2))
     for ci, (vals, shift) in enumerate(cyc):
         k = capped(cs, max(vals), ml, qn, False, level)
-        if rich or ci != 1:
+        if rich or (ci != 1 and not (micro and ci == 2)):
             ops.append({"m": "get", "q": qn, "rows": k, "r": ["cyc", vals, shift]})
         if rich or ci == 1:
             ops.append({"m": "get", "q": qn, "rows": k, "r": ["cyc", vals, shift], "mask": True, "qdt": "f32"})
     for c in CELL_RADII:
         k = capped(cs, c, ml, qn, True, level)
         ops.append({"m": "cells", "q": qn, "rows": k, "r": c})
-        if rich or c == 1:
+        if rich or (c == 1 and not micro):
             ops.append({"m": "cells", "q": qn, "rows": k, "r": c, "mask": True})
     k = capped(cs, 3, ml, qn, True, level)
     ops.append({"m": "cells", "q": qn, "rows": k, "r": ["cyc", [0, 3, 1, 2], 0]})
-    if level != "tiny":
+    if level not in ("tiny", "micro"):
         ops.append({"m": "cells", "q": qn, "rows": k, "r": ["cyc", [2, 0, 1], 1], "mask": True, "qdt": "f32"})
     # single (3,) queries: one far point, one non-finite point and the first lattice points of the query set
-    nsingle = {"tiny": 5, "lite": 10, "mini": 10, "mid": 60, "full": 400}[level]
+    nsingle = {"micro": 4, "tiny": 5, "lite": 10, "mini": 10, "mid": 60, "full": 400}[level]
     srows = [0, 4] + list(range(len(EXTRA_Q), len(EXTRA_Q) + nsingle - 2))
     if rich:
         for r in (0.0, 1.0, 2.5, 5.0):
@@ -631,7 +644,8 @@ def program(cfg, coords, box, level):
     else:
         ops.append({"m": "get", "q": qn, "rows": srows, "r": 0.5, "single": True})
         ops.append({"m": "get", "q": qn, "rows": srows, "r": 2.0, "single": True, "mask": True})
-        ops.append({"m": "cells", "q": qn, "rows": srows, "r": 1, "single": True, "mask": level == "tiny"})
+        if not micro:
+            ops.append({"m": "cells", "q": qn, "rows": srows, "r": 1, "single": True, "mask": level == "tiny"})
     return ops
 
 
@@ -653,8 +667,8 @@ def run_config(ctx, cfg, level):
                       {"kind": "build", "cfg": cfg}, expected="cell list", observed=type(e).__name__)
         return False
     orc = Oracle(cfg, coords, msel, box)
-    for op in program(cfg, coords, box, level):
-        if not ctx.journal(tag + "#" + json.dumps(op, separators=(",", ":"))):
+    for op, opjson in program(cfg, coords, box, level):
+        if not ctx.journal(tag + "#" + opjson):
             continue
         run_op(ctx, cfg, cl, orc, op)
     return True
@@ -681,7 +695,7 @@ def shards(tier, seed):
         ms = [("ms", 1, 1, "lite"), ("ms", 2, 16, "tiny"), ("ms27", 3, 8, "tiny")]
         pms = [("ms27", 1, 1, "mini", allb), ("ms27", 2, 4, "tiny", ["o2.5", "o4", "t1", "t2"])]
     else:
-        ms = [("ms", 1, 1, "mid"), ("ms", 2, 16, "lite"), ("ms", 3, 240, "tiny"), ("ms27", 4, 24, "tiny")]
+        ms = [("ms", 1, 1, "mid"), ("ms", 2, 16, "lite"), ("ms", 3, 240, "micro"), ("ms27", 4, 24, "tiny")]
         pms = [("ms27", 1, 1, "mini", allb), ("ms27", 2, 4, "mini", allb), ("ms27", 3, 8, "tiny", allb),
                ("ms", 2, 8, "tiny", ["o3", "t1"])]
     for fam, k, parts, level in ms:
